@@ -248,6 +248,72 @@ theorem lit_pos (n : Int) (d : Nat) (hn : 0 < n) (hd : 0 < d) : (0 : K) < ((mkRa
     rw [Rat.mkRat_eq_div]; exact div_pos (by exact_mod_cast hn) (by exact_mod_cast hd)
   exact_mod_cast this
 
+/-! ## isometries -/
+
+def liftIso3 (m : Iso3 K) : Iso3 (Opt K sq) := ⟨val m.qi, val m.qj, val m.qk, val m.qw, lift3 m.t⟩
+def liftIso2 (m : Iso2 K) : Iso2 (Opt K sq) := ⟨val m.re, val m.im, lift2 m.t⟩
+
+section Iso
+variable (m n : Iso3 K) (m2 n2 : Iso2 K) (v : V3 K) (v2 : V2 K)
+@[optsimp] theorem liftIso3_mk (a b c d : K) (t : V3 K) :
+    (⟨val a, val b, val c, val d, lift3 t⟩ : Iso3 (Opt K sq)) = liftIso3 ⟨a, b, c, d, t⟩ := id rfl
+@[optsimp] theorem liftIso2_mk (a b : K) (t : V2 K) :
+    (⟨val a, val b, lift2 t⟩ : Iso2 (Opt K sq)) = liftIso2 ⟨a, b, t⟩ := id rfl
+@[optsimp] theorem liftIso3_t : (liftIso3 m : Iso3 (Opt K sq)).t = lift3 m.t := id rfl
+@[optsimp] theorem liftIso3_qi : (liftIso3 m : Iso3 (Opt K sq)).qi = val m.qi := id rfl
+@[optsimp] theorem liftIso3_qj : (liftIso3 m : Iso3 (Opt K sq)).qj = val m.qj := id rfl
+@[optsimp] theorem liftIso3_qk : (liftIso3 m : Iso3 (Opt K sq)).qk = val m.qk := id rfl
+@[optsimp] theorem liftIso3_qw : (liftIso3 m : Iso3 (Opt K sq)).qw = val m.qw := id rfl
+@[optsimp] theorem liftIso3_qv : letI := fieldNum K sq; (liftIso3 m : Iso3 (Opt K sq)).qv = lift3 m.qv := id rfl
+@[optsimp] theorem liftIso2_t : (liftIso2 m2 : Iso2 (Opt K sq)).t = lift2 m2.t := id rfl
+@[optsimp] theorem liftIso2_re : (liftIso2 m2 : Iso2 (Opt K sq)).re = val m2.re := id rfl
+@[optsimp] theorem liftIso2_im : (liftIso2 m2 : Iso2 (Opt K sq)).im = val m2.im := id rfl
+@[optsimp] theorem liftIso3_rot : letI := fieldNum K sq;
+    (liftIso3 m : Iso3 (Opt K sq)).rot (lift3 v) = lift3 (m.rot v) := id rfl
+@[optsimp] theorem liftIso3_invRot : letI := fieldNum K sq;
+    (liftIso3 m : Iso3 (Opt K sq)).invRot (lift3 v) = lift3 (m.invRot v) := id rfl
+@[optsimp] theorem liftIso3_act : letI := fieldNum K sq;
+    (liftIso3 m : Iso3 (Opt K sq)).act (lift3 v) = lift3 (m.act v) := id rfl
+@[optsimp] theorem liftIso3_invAct : letI := fieldNum K sq;
+    (liftIso3 m : Iso3 (Opt K sq)).invAct (lift3 v) = lift3 (m.invAct v) := id rfl
+@[optsimp] theorem liftIso3_inverse : letI := fieldNum K sq;
+    (liftIso3 m : Iso3 (Opt K sq)).inverse = liftIso3 m.inverse := id rfl
+@[optsimp] theorem liftIso3_mul : letI := fieldNum K sq;
+    (liftIso3 m : Iso3 (Opt K sq)).mul (liftIso3 n) = liftIso3 (m.mul n) := id rfl
+@[optsimp] theorem liftIso3_invMul : letI := fieldNum K sq;
+    (liftIso3 m : Iso3 (Opt K sq)).invMul (liftIso3 n) = liftIso3 (m.invMul n) := id rfl
+@[optsimp] theorem liftIso3_identity : letI := fieldNum K sq;
+    (Iso3.identity : Iso3 (Opt K sq)) = liftIso3 Iso3.identity := id rfl
+@[optsimp] theorem liftIso2_rot : letI := fieldNum K sq;
+    (liftIso2 m2 : Iso2 (Opt K sq)).rot (lift2 v2) = lift2 (m2.rot v2) := id rfl
+@[optsimp] theorem liftIso2_invRot : letI := fieldNum K sq;
+    (liftIso2 m2 : Iso2 (Opt K sq)).invRot (lift2 v2) = lift2 (m2.invRot v2) := id rfl
+@[optsimp] theorem liftIso2_act : letI := fieldNum K sq;
+    (liftIso2 m2 : Iso2 (Opt K sq)).act (lift2 v2) = lift2 (m2.act v2) := id rfl
+@[optsimp] theorem liftIso2_invAct : letI := fieldNum K sq;
+    (liftIso2 m2 : Iso2 (Opt K sq)).invAct (lift2 v2) = lift2 (m2.invAct v2) := id rfl
+@[optsimp] theorem liftIso2_inverse : letI := fieldNum K sq;
+    (liftIso2 m2 : Iso2 (Opt K sq)).inverse = liftIso2 m2.inverse := id rfl
+@[optsimp] theorem liftIso2_mul : letI := fieldNum K sq;
+    (liftIso2 m2 : Iso2 (Opt K sq)).mul (liftIso2 n2) = liftIso2 (m2.mul n2) := id rfl
+@[optsimp] theorem liftIso2_invMul : letI := fieldNum K sq;
+    (liftIso2 m2 : Iso2 (Opt K sq)).invMul (liftIso2 n2) = liftIso2 (m2.invMul n2) := id rfl
+@[optsimp] theorem liftIso2_identity : letI := fieldNum K sq;
+    (Iso2.identity : Iso2 (Opt K sq)) = liftIso2 Iso2.identity := id rfl
+end Iso
+
+/-- `normalize`: defined exactly when the square-root operation does not vanish at `|v|²` -/
+theorem lift3_normalize (v : V3 K) (h : letI := fieldNum K sq; sq v.normSq ≠ 0) : letI := fieldNum K sq;
+    (lift3 v : V3 (Opt K sq)).normalize = lift3 v.normalize := by
+  simp only [V3.normalize]; rw [lift3_norm]; simp only [V3.norm, fieldNum_sqrt, lift3_sdiv_ite, if_neg h]
+theorem lift2_normalize (v : V2 K) (h : letI := fieldNum K sq; sq v.normSq ≠ 0) : letI := fieldNum K sq;
+    (lift2 v : V2 (Opt K sq)).normalize = lift2 v.normalize := by
+  simp only [V2.normalize]; rw [lift2_norm]; simp only [V2.norm, fieldNum_sqrt, lift2_sdiv_ite, if_neg h]
+
+/-- lifting of optional results -/
+@[optsimp] theorem option_map_some' {α β : Type} (f : α → β) (a : α) : Option.map f (some a) = some (f a) := rfl
+@[optsimp] theorem option_map_none' {α β : Type} (f : α → β) : Option.map f (none : Option α) = none := rfl
+
 theorem neq_false_iff (a b : K) : letI := fieldNum K sq; neq a b = false ↔ a ≠ b := by
   rw [← Bool.not_eq_true, neq_iff]
 @[optsimp] theorem neq_true_eq (a b : K) : letI := fieldNum K sq; (neq a b = true) = (a = b) := propext (neq_iff a b)
